@@ -584,3 +584,8 @@ def run(prog, rep, tier, snap):
     rep.rule("R17.6", "Easter Sunday of every year 1901..2099 (value-fixed walk of the computus)", 1)
     rep.call(r17_6, prog, rep)
 READY = True
+
+# texts brought up to date with the rules added in the last rounds
+LEVEL_TEXT = LEVEL_TEXT + ' Added later: the yearly and monthly fillers start a period early for every class of shift that can move forward (walk over ten SHIFT classes); Easter Sunday of every year 1901..2099 against the Gregorian computus (walk); shift() packs a moved day only where it is known to lie in its month.'
+TECHNIQUE = (TECHNIQUE if isinstance(TECHNIQUE, str) else TECHNIQUE) + '; value-fixed walks of the look-back code and of the Easter computus; must-facts on the day carry'
+
